@@ -6,13 +6,13 @@
    Proved for every state that satisfies [Inv] (counts describe the held events, every held label has an end line) -
    the states C04 proves reachable.  Statements only; proofs in Proofs/C06_*.v.
    Partial: the per-format row round trip is proved for Oscar2013 and 22-column Oscar2013Extended; for 20/21-column
-   Extended and custom ASCII files it remains the hypothesis [row_rt] of the generic theorems; the JETSCAPE writer is
-   tied by correspondence and the round-trip oracle only.  Footers after an event-REMOVING filter: open finding
+   Extended and custom ASCII files it remains the hypothesis [row_rt] of the generic theorems.  JETSCAPE: full (below).  Footers after an event-REMOVING filter: open finding
    C06-footers-after-event-removal (the theorems take the state as it is: they then speak about the footers the
    state holds under its renumbered labels). *)
 From Coq Require Import List String ZArith QArith Bool Arith.
-From SX Require Import Lib.Strs Lib.StrLemmas Gen.GenParticleMap Gen.GenFormats Model.Oscar Model.OscarDoc Model.Writer
-  Proofs.C01_Oscar Proofs.C01_Shapes Proofs.C06_Row Proofs.C06_Oscar Proofs.C06_Formats Proofs.C06_Example.
+From SX Require Import Lib.Strs Lib.StrLemmas Gen.GenParticleMap Gen.GenFormats Model.Oscar Model.OscarDoc Model.Jetscape
+  Model.JetscapeDoc Model.Writer
+  Proofs.C01_Oscar Proofs.C01_Shapes Proofs.C06_Row Proofs.C06_Oscar Proofs.C06_Formats Proofs.C06_Example Proofs.C06_Jetscape.
 Import ListNotations.
 Local Open Scope string_scope.
 
@@ -135,3 +135,51 @@ Theorem C06_example :
         smash_footer "0" "7.125" "yes"].
 Proof. exact example_state. Qed.
 Print Assumptions C06_example.
+
+(* ------------------------------------------------------------------ JETSCAPE *)
+(* one JETSCAPE particle line round-trips: the seven printed columns come back rounded, the line prints again the same *)
+Theorem C06_jetscape_row :
+  forall tok_float tok_int pdg_valid pdg_charge usqrt fmt rnd,
+  (forall f v, is_int_fmt f = false -> tok_float (fmt f v) = Some (rnd f v)) ->
+  (forall v, tok_int (fmt FD v) = Some (rnd FD v)) ->
+  (forall f v, fmt f (rnd f v) = fmt f v) -> (forall f v, numeric (fmt f v) = true) ->
+  forall p vs, has_vals cs_jet p vs -> jrow_rt tok_float tok_int pdg_valid pdg_charge usqrt fmt p.
+Proof. exact jrow_rt_ok. Qed.
+Print Assumptions C06_jetscape_row.
+
+(* the written file: header line, per held event "# Event i+1 weight 1 EPangle 0 N_xxx n" and its lines, the trailer *)
+Theorem C06_jetscape_write_is_render :
+  forall tok_float tok_int pdg_valid pdg_charge usqrt fmt dec s,
+  JInv s -> js_events s <> [] -> Forall (Forall (jrow_rt tok_float tok_int pdg_valid pdg_charge usqrt fmt)) (js_events s) ->
+  write_jetscape fmt dec s = Ok (jrender (jdoc_of fmt dec s)).
+Proof. exact jwrite_is_render. Qed.
+Print Assumptions C06_jetscape_write_is_render.
+
+Theorem C06_jetscape_written_doc_wf :
+  forall tok_float tok_int pdg_valid pdg_charge usqrt fmt dec,
+  (forall z, numeric (dec z) = true) -> (forall z, (0 <= z)%Z -> tok_int (dec z) = Some (zq z)) ->
+  forall s s1 s2, JInv s -> js_events s <> [] -> std_defstr (js_defstr s) ->
+  is_count_line (js_defstr s) (js_header s) = false ->
+  is_trailer (js_last s) = true -> is_count_line (js_defstr s) (js_last s) = false ->
+  first_floats tok_float 2 (filter (fun t => negb (t =? "")) (js_last s)) = [s1; s2] ->
+  Forall (Forall (jrow_rt tok_float tok_int pdg_valid pdg_charge usqrt fmt)) (js_events s) ->
+  jwf tok_float tok_int pdg_valid pdg_charge usqrt (js_defstr s) (jdoc_of fmt dec s) s1 s2.
+Proof. exact jdoc_wf. Qed.
+Print Assumptions C06_jetscape_written_doc_wf.
+
+Theorem C06_jetscape_read_back :
+  forall tok_float tok_int pdg_valid pdg_charge usqrt fmt dec s s1 s2,
+  JInv s -> js_events s <> [] -> Forall (Forall (jrow_rt tok_float tok_int pdg_valid pdg_charge usqrt fmt)) (js_events s) ->
+  jwf tok_float tok_int pdg_valid pdg_charge usqrt (js_defstr s) (jdoc_of fmt dec s) s1 s2 ->
+  exists file, write_jetscape fmt dec s = Ok file /\
+               jload tok_float tok_int pdg_valid pdg_charge usqrt None file (js_defstr s) SelAll
+               = Ok (jexpected tok_float tok_int pdg_valid pdg_charge usqrt (jdoc_of fmt dec s) s1 s2).
+Proof. exact jread_back. Qed.
+Print Assumptions C06_jetscape_read_back.
+
+Theorem C06_jetscape_rewrite_fixpoint :
+  forall tok_float tok_int pdg_valid pdg_charge usqrt fmt dec s s1 s2,
+  JInv s -> js_events s <> [] -> Forall (Forall (jrow_rt tok_float tok_int pdg_valid pdg_charge usqrt fmt)) (js_events s) ->
+  write_jetscape fmt dec (jreread tok_float tok_int pdg_valid pdg_charge usqrt fmt dec s s1 s2) = write_jetscape fmt dec s.
+Proof. exact jrewrite_fixpoint. Qed.
+Print Assumptions C06_jetscape_rewrite_fixpoint.
